@@ -63,12 +63,18 @@ func (er *entryReaderImpl) Read(now time.Time) ([]*entry, error) {
 
 	var entries []*entry
 	addEntriesFn := func(workflow *dag.DAG, s []dag.Schedule, e entryType) {
+		seen := map[int64]struct{}{}
 		for _, ss := range s {
 			next := ss.Parsed.Next(now)
 			if next.IsZero() {
 				// the expression names a date that never comes
 				continue
 			}
+			if _, dup := seen[next.Unix()]; dup {
+				// several expressions of one list name the same minute
+				continue
+			}
+			seen[next.Unix()] = struct{}{}
 			entries = append(entries, &entry{
 				Next:      ss.Parsed.Next(now),
 				Job:       er.jobCreator.CreateJob(workflow, next),
